@@ -87,9 +87,17 @@ def r_spawn_fresh(e, R):
             norm(muts[0])[:60] if muts else "", "fork_exec writes into the env mapping it was given: the executor hands the same mapping to every "
             "worker, so the first spawn turns the overlay into a snapshot of the parent's whole environment and later workers (respawns, resizes) "
             "get stale values", e.loc(f, muts[0]) if muts else None)
-    enc = isinstance(envx, ast.Name) and any(isinstance(n, ast.For) and norm(n.iter) == f"{envn}.items()" and any(
-        isinstance(x, ast.Call) and isinstance(x.func, ast.Attribute) and x.func.attr == "append" and isinstance(x.func.value, ast.Name) and x.func.value.id == envx.id
-        for x in ast.walk(n)) for n in func_nodes(f))
+    def appends_to(x, nm):
+        # `<nm>.append(...)`, directly or through a local bound once to that bound method
+        if not isinstance(x, ast.Call):
+            return False
+        fn_ = x.func
+        if isinstance(fn_, ast.Name):
+            ds = e.local_defs(f, fn_.id)
+            fn_ = ds[0] if len(ds) == 1 else fn_
+        return isinstance(fn_, ast.Attribute) and fn_.attr == "append" and isinstance(fn_.value, ast.Name) and fn_.value.id == nm
+    enc = isinstance(envx, ast.Name) and any(isinstance(n, ast.For) and norm(n.iter) == f"{envn}.items()" and any(appends_to(x, envx.id) for x in ast.walk(n))
+                                             for n in func_nodes(f))
     # same thing as a comprehension over the merged mapping's items
     enc = enc or (isinstance(envx, ast.Name) and any(isinstance(d, (ast.ListComp, ast.GeneratorExp)) and len(d.generators) == 1 and not d.generators[0].ifs
                                                       and norm(d.generators[0].iter) == f"{envn}.items()"
